@@ -2,7 +2,7 @@
 // generated inputs, writes the protocol lines for the Lean model driver and the outputs of the real
 // code, and judges property predicates on the real code with independent oracles (used as
 // refinement test and as the failing-input SEARCH when a proof obligation or correspondence breaks).
-package main
+package hc
 
 import (
 	"bufio"
@@ -24,20 +24,20 @@ type Fail struct {
 }
 
 type Ctx struct {
-	Prop    string
-	Tier    string
-	Seed    uint64
-	N       int // size knob: number of generated cases per class
-	rng     uint64
-	cases   *bufio.Writer
-	goOut   *bufio.Writer
-	nCases  int
-	Hist    map[string]int
+	Prop     string
+	Tier     string
+	Seed     uint64
+	N        int // size knob: number of generated cases per class
+	rng      uint64
+	cases    *bufio.Writer
+	goOut    *bufio.Writer
+	nCases   int
+	Hist     map[string]int
 	distinct map[string]struct{}
-	Samples []string
-	Fails   []Fail
-	Evals   int
-	Only    string // optional sub-generator filter
+	Samples  []string
+	Fails    []Fail
+	Evals    int
+	Only     string // optional sub-generator filter
 }
 
 // splitmix64
@@ -48,10 +48,10 @@ func (c *Ctx) U64() uint64 {
 	z = (z ^ (z >> 27)) * 0x94d049bb133111eb
 	return z ^ (z >> 31)
 }
-func (c *Ctx) Intn(n int) int { return int(c.U64() % uint64(n)) }
-func (c *Ctx) Float() float64 { return float64(c.U64()>>11) / (1 << 53) }
-func (c *Ctx) Bool() bool     { return c.U64()&1 == 1 }
-func (c *Ctx) Chance(p float64) bool { return c.Float() < p }
+func (c *Ctx) Intn(n int) int             { return int(c.U64() % uint64(n)) }
+func (c *Ctx) Float() float64             { return float64(c.U64()>>11) / (1 << 53) }
+func (c *Ctx) Bool() bool                 { return c.U64()&1 == 1 }
+func (c *Ctx) Chance(p float64) bool      { return c.Float() < p }
 func (c *Ctx) Range(a, b float64) float64 { return a + (b-a)*c.Float() }
 func (c *Ctx) Norm() float64 {
 	u1, u2 := c.Float(), c.Float()
@@ -68,7 +68,7 @@ func (c *Ctx) Case(line string, mode string, goOutput string) {
 	fmt.Fprintln(c.goOut, mode+" "+goOutput)
 	c.nCases++
 }
-func (c *Ctx) Count(key string) { c.Hist[key]++ }
+func (c *Ctx) Count(key string)    { c.Hist[key]++ }
 func (c *Ctx) Distinct(key string) { c.distinct[key] = struct{}{} }
 func (c *Ctx) Sample(s string) {
 	if len(c.Samples) < 8 {
@@ -122,25 +122,21 @@ func B(b bool) string {
 	return "0"
 }
 
-var props = map[string]func(*Ctx){}
-
-func main() {
-	if len(os.Args) < 6 {
-		fmt.Fprintln(os.Stderr, "usage: harness <prop> <tier> <seed> <n> <outdir> [only]")
+// Main is the entry point of every per-property harness binary:
+//
+//	harness-cxx <tier> <seed> <n> <outdir> [only]
+func Main(prop string, f func(*Ctx)) {
+	if len(os.Args) < 5 {
+		fmt.Fprintln(os.Stderr, "usage: harness-"+prop+" <tier> <seed> <n> <outdir> [only]")
 		os.Exit(2)
 	}
-	seed, _ := strconv.ParseUint(os.Args[3], 10, 64)
-	n, _ := strconv.Atoi(os.Args[4])
-	out := os.Args[5]
-	c := &Ctx{Prop: os.Args[1], Tier: os.Args[2], Seed: seed, N: n, rng: seed*0x9e3779b97f4a7c15 + 12345,
+	seed, _ := strconv.ParseUint(os.Args[2], 10, 64)
+	n, _ := strconv.Atoi(os.Args[3])
+	out := os.Args[4]
+	c := &Ctx{Prop: prop, Tier: os.Args[1], Seed: seed, N: n, rng: seed*0x9e3779b97f4a7c15 + 12345,
 		Hist: map[string]int{}, distinct: map[string]struct{}{}}
-	if len(os.Args) > 6 {
-		c.Only = os.Args[6]
-	}
-	f, ok := props[c.Prop]
-	if !ok {
-		fmt.Fprintln(os.Stderr, "unknown property", c.Prop)
-		os.Exit(2)
+	if len(os.Args) > 5 {
+		c.Only = os.Args[5]
 	}
 	os.MkdirAll(out, 0o755)
 	cf, _ := os.Create(filepath.Join(out, "cases.txt"))
